@@ -59,6 +59,14 @@ ILL_TYPED = {
     'unannotated-lambda-assign': 'g = lambda x: x\n',
     'unpack-arity': 'a, b, c = (1, 2)\n',
     'self-assign': 'a = a\n',
+    'embed-actual-no-args-call': '@__actual__()\nclass A:\n\tpass\n',
+    'embed-actual-bare': '@__actual__\nclass A:\n\tpass\n',
+    'embed-alias-no-args': 'from rogw.tranp.compatible.python.embed import Embed\n\n@Embed.alias()\nclass A:\n\tpass\n',
+    'embed-prop-no-args': 'from rogw.tranp.compatible.python.embed import Embed\n\nclass A:\n\t@Embed.prop()\n\tdef f(self) -> int:\n\t\treturn 1\n',
+    'class-without-init-decl': 'class A:\n\tx: int\n\nclass B(A):\n\ty: int\n\ndef f(b: B) -> int:\n\treturn b.x\n',
+    'except-without-as': 'def f() -> int:\n\ttry:\n\t\treturn 1\n\texcept ValueError:\n\t\treturn 2\n',
+    'nested-target': 'def f(x: tuple[tuple[int, int], int]) -> int:\n\t(a, b), c = x\n\treturn a\n',
+    'self-import': 'from __main__ import A\n\nclass A:\n\tpass\n',
     'self-outside-class': 'def f() -> int:\n\treturn self.v\n',
     'super-outside-class': 'def f() -> int:\n\treturn super().v\n',
     'duplicate-def': 'def f() -> int:\n\treturn 1\n\ndef f() -> str:\n\treturn 1\n',
